@@ -117,6 +117,24 @@ class UnprintableError(Exception):
     __repr__ = __str__
 
 
+class FalsyError(Exception):
+    """An "error collection" exception (`raise Errors(found)`): a sized container of sub-errors - and falsy when that is empty."""
+
+    def __init__(self, msg):
+        super().__init__(msg)
+        self.items: list = []
+
+    def __len__(self):
+        return len(self.items)
+
+
+class FalsyBoolError(Exception):
+    """Says of itself whether it is fatal: `__bool__` is False for a recoverable error."""
+
+    def __bool__(self):
+        return False
+
+
 EXC = {
     'ValueError': ValueError,
     'KeyError': KeyError,
@@ -137,6 +155,10 @@ def make_exc(kind: str, label: str) -> BaseException:
         return StopIteration(label)  # what `next(x for x in items if ...)` raises in a sync handler when nothing matches
     if kind == 'Unprintable':
         return UnprintableError(label)
+    if kind == 'Falsy':
+        return FalsyError(f'{kind}@{label}')
+    if kind == 'FalsyBool':
+        return FalsyBoolError(f'{kind}@{label}')
     if kind == 'Unhashable':
         return UnhashableError(f'{kind}@{label}')
     if kind == 'TwoArg':
@@ -273,6 +295,12 @@ class TracedBus(EventBus):
         finally:
             run.open_procs[(self._idx, tag)].remove(pid)
             run.rec('proc_end', pid=pid, bus=self._idx, ev=tag, exc=exc, hist=len(self.event_history), snap=run.snap(event))
+            if run.sc.get('watch_children'):
+                # user code looking at the children of an event when that event's processing ends (`for c in event.event_children`)
+                for c in list(event.event_children):
+                    ct = run.tag_of(c)
+                    if ct > 0:
+                        run.rec('child_seen', ev=ct, of=tag, snap=run.snap(c))
 
     async def _default_wal_handler(self, event):
         run = self._run
@@ -563,6 +591,11 @@ class Run:
             kw['event_path'] = [self.sc['buses'][b]['name'] for b in opts['prepath']]
         if opts.get('payload'):
             kw.update(_payload(opts['payload']))
+        if opts.get('rehydrated'):
+            # an event object rebuilt from the dump of a FINISHED event (WAL line, model_dump_json of a completed event) and dispatched
+            # again: the dump carries event_processed_at but no results
+            import datetime as _dt2
+            kw['event_processed_at'] = _dt2.datetime.now(_dt2.UTC) - _dt2.timedelta(hours=1)
         if opts.get('age'):
             # the event object was constructed `age` seconds before it is dispatched (creation order != dispatch order)
             import datetime as _dt
